@@ -78,6 +78,12 @@ def run_scenario(sc):
             sys.argv = ['embedding-app', 'arg']         # the embedding application replaced sys.argv after importing kernprof
         if pre.get('rebind_path'):
             sys.path = list(sys.path)
+        if pre.get('profile_state') == 'enabled':
+            line_profiler.profile.enable()              # the embedding application uses the decorator itself
+            import atexit
+            atexit.unregister(line_profiler.profile.show)
+        elif pre.get('profile_state') == 'disabled':
+            line_profiler.profile.disable()
         for run in sc['runs']:
             for k in list(sys.modules):
                 if k.startswith(('prog', 'pkgm', 'helper')):
@@ -121,6 +127,9 @@ def run_scenario(sc):
             res['runs'].append(r)
     finally:
         os.chdir(old_cwd)
+        if sc.get('pre', {}).get('profile_state'):
+            line_profiler.profile.enabled = None
+            line_profiler.profile._profile = None
         if saved_path_env is not None:
             os.environ['PATH'] = saved_path_env
         shutil.rmtree(d, ignore_errors=True)
